@@ -31,6 +31,12 @@ func genTree(r *Rng, i int) *TreeCase {
 		kind, n = "deep", r.PickInt(1685, 1700, 1760)
 	case i%10 == 3:
 		kind, n = "deep", r.PickInt(40, 41, 42, 43, 81, 82, 100, 300, 500)
+	case i%10 == 5 || i%10 == 8:
+		// a tree of 2-3 levels, then out-of-order intervals that collapse parts of it (only the tree model applies)
+		kind, n = "deepmerge", r.PickInt(45, 60, 83, 130, 400, 900)
+		if i%40 == 5 {
+			n = r.PickInt(1690, 1750)
+		}
 	}
 	tc.Kind = kind
 	ts := int64(r.Range(-20, 1000))
@@ -50,8 +56,11 @@ func genTree(r *Rng, i int) *TreeCase {
 			p0idx = idx + 1
 			p1idx = p0idx + int64(r.PickInt(0, 9, 249, 250))
 		}
-		if kind == "small" {
+		if kind == "small" || (kind == "deepmerge" && k > n*2/3 && r.Chance(1, 4)) {
 			x := r.Intn(100)
+			if kind == "deepmerge" && x >= 16 {
+				x = r.Intn(16)
+			}
 			switch {
 			case x < 12 && len(seen) > 0: // out of order: start at an earlier timestamp
 				p0ts = seen[r.Intn(len(seen))] + int64(r.Range(-1, 1))
@@ -151,7 +160,7 @@ func runTree(rp Replay) (*Case, error) {
 	lvl := t.Level()
 	merged := len(trav) < len(tc.Adds)
 	return &Case{
-		Coq:        GApp("KTree", GList(adds), GListZ(tc.Qs), GList(travS), GList(ge), GList(lt)),
+		Coq:        GApp(map[bool]string{true: "KTreeML", false: "KTree"}[tc.Kind == "deepmerge"], GList(adds), GListZ(tc.Qs), GList(travS), GList(ge), GList(lt)),
 		Replay:     rp,
 		NonTrivial: len(trav) >= 2 && (merged || lvl >= 1),
 		Oracle:     viol,
@@ -236,5 +245,32 @@ func runIw(rp Replay) (*Case, error) {
 		NonTrivial: len(distinct) >= 2,
 		Oracle:     viol,
 		Stream:     "iw",
+	}, nil
+}
+
+// ---------------------------------------------------------------- checkPosOrAdvance stream
+
+func runAdv(rp Replay) (*Case, error) {
+	a := rp.Adv
+	if len(a) != 4 {
+		return nil, fmt.Errorf("adv: need 4 numbers")
+	}
+	np, ok := partition.VC02CheckPosOrAdvance(a[0], a[1], a[2], a[3])
+	// oracle: the answer is a position of the chunk inside the window and not before pos, or "none" exactly when there is none
+	var viol *Violation
+	want := a[3]
+	if want < a[0] {
+		want = a[0]
+	}
+	exists := want < a[2] && want <= a[1]
+	if ok != exists || (ok && np != want) || (!ok && np != a[2]) {
+		viol = &Violation{Class: "check-pos-or-advance", Detail: fmt.Sprintf("window [%d..%d] count %d pos %d: got (%d,%v), want (%d,%v)", a[0], a[1], a[2], a[3], np, ok, want, exists)}
+	}
+	return &Case{
+		Coq:        GApp("KAdv", GZ(int64(a[0])), GZ(int64(a[1])), GZ(int64(a[2])), GZ(int64(a[3])), GZ(int64(np)), GBool(ok)),
+		Replay:     rp,
+		NonTrivial: a[0] <= a[1] && a[0] < a[2],
+		Oracle:     viol,
+		Stream:     "adv",
 	}, nil
 }
